@@ -27,6 +27,7 @@ type SAct struct {
 	H  int    `json:"h"`
 	H2 int    `json:"h2"`
 	Xs []int  `json:"xs"`
+	Ys []int  `json:"ys"`
 	X  int    `json:"x"`
 	Y  int    `json:"y"`
 	Z  int    `json:"z"`
@@ -58,6 +59,8 @@ func (a SAct) String() string {
 		return fmt.Sprintf("%s(h%d,%d)", a.Op, a.H, a.X)
 	case "Range":
 		return fmt.Sprintf("Range(%d,%d,%d)", a.X, a.Y, a.Z)
+	case "IntsEqual", "IntsCompare", "IntsHasPrefix", "IntsAdd", "IntsMax", "IntsMin", "IntsSum", "IntsReverse":
+		return fmt.Sprintf("%s(%v,%v)", a.Op, a.Xs, a.Ys)
 	case "Sort":
 		if len(a.Xs) > 12 {
 			return fmt.Sprintf("Sort(len=%d,%v...)", len(a.Xs), a.Xs[:12])
@@ -128,6 +131,25 @@ func applyS(hs map[int]*sortints.SortedInts, a SAct) (r SRes, xsAfter []int, res
 			r = SRes{Kind: "bool", S: []int{}, B: sortints.ContainsSorted(*hs[a.H], *hs[a.H2])}
 		case "Range":
 			set(sortints.Range(a.X, a.Y, a.Z))
+		case "IntsEqual":
+			r = SRes{Kind: "bool", S: []int{}, B: ints.Equal(xs, cp(a.Ys))}
+		case "IntsCompare":
+			r = SRes{Kind: "int", S: []int{}, I: ints.Compare(xs, cp(a.Ys))}
+		case "IntsHasPrefix":
+			r = SRes{Kind: "bool", S: []int{}, B: ints.HasPrefix(xs, cp(a.Ys))}
+		case "IntsMax":
+			r = SRes{Kind: "int", S: []int{}, I: ints.Max(xs)}
+		case "IntsMin":
+			r = SRes{Kind: "int", S: []int{}, I: ints.Min(xs)}
+		case "IntsSum":
+			r = SRes{Kind: "int", S: []int{}, I: ints.Sum(xs)}
+		case "IntsReverse":
+			r = SRes{Kind: "seq", S: cp(ints.Reverse(xs))}
+			xs = cp(a.Xs)
+		case "IntsAdd":
+			ints.Add(xs, cp(a.Ys))
+			r = SRes{Kind: "seq", S: cp(xs)}
+			xs = cp(a.Xs)
 		case "Sort":
 			ints.Sort(xs)
 			r = SRes{Kind: "seq", S: cp(xs)}
@@ -435,6 +457,47 @@ func driveC17(c *Ctx) {
 		runHistoryS(w, h)
 		ns++
 	}
+	// ints helpers: all pairs of sequences of length <= 2 over {-1,0,2} and seeded longer ones
+	nh2 := 0
+	small := tuples(-1, 1, 2)
+	helper := func(op string, xs, ys []int) {
+		h := []SAct{{Op: op, Xs: xs, Ys: ys}}
+		w := set.Begin(fmt.Sprintf("%s(%v,%v)", op, xs, ys), tr.E{"input": map[string]interface{}{"hist": h}})
+		runHistoryS(w, h)
+		nh2++
+	}
+	for _, x := range small {
+		for _, y := range small {
+			helper("IntsEqual", x, y)
+			helper("IntsCompare", x, y)
+			helper("IntsHasPrefix", x, y)
+			if len(x) == len(y) {
+				helper("IntsAdd", x, y)
+			}
+		}
+		if len(x) > 0 {
+			helper("IntsMax", x, nil)
+			helper("IntsMin", x, nil)
+		}
+		helper("IntsSum", x, nil)
+		helper("IntsReverse", x, nil)
+	}
+	for i := 0; i < 200; i++ {
+		n := 1 + r.Intn(9)
+		x, y := make([]int, n), make([]int, n)
+		for k := range x {
+			x[k], y[k] = r.Intn(21)-10, r.Intn(21)-10
+		}
+		if i%3 == 0 {
+			copy(y, x[:n/2+1])
+		}
+		op := []string{"IntsEqual", "IntsCompare", "IntsHasPrefix", "IntsAdd", "IntsMax", "IntsMin", "IntsSum", "IntsReverse"}[i%8]
+		if op != "IntsAdd" {
+			y = y[:1+r.Intn(n)]
+		}
+		helper(op, x, y)
+	}
+	meta["B_ints_helper_calls"] = nh2
 	meta["B_sort_calls"] = ns
 	_, meta["B_sort_adversary_reaches_heapsort"] = sortAdversary(600)
 	finish()
@@ -444,6 +507,9 @@ func (a SAct) MarshalJSON() ([]byte, error) {
 	type plain SAct
 	if a.Xs == nil {
 		a.Xs = []int{}
+	}
+	if a.Ys == nil {
+		a.Ys = []int{}
 	}
 	return json.Marshal(plain(a))
 }
